@@ -94,8 +94,10 @@ def run(repo, rep, tier):
     addcb = m('add_callback')
     # the order rules are judged with private helpers inlined, so that it
     # does not matter whether a step is written in place or extracted
-    stop_del_f, stop_thr_f = Flat(stop_del), Flat(stop_thr)
-    run_cb_f = Flat(run_cb, keep=(deliver.name,))
+    stop_del_f = Flat(stop_del, aliases=True)
+    stop_thr_f = Flat(stop_thr, aliases=True)
+    run_cb_f = Flat(run_cb, keep=(deliver.name,), aliases=True)
+    handle_f = Flat(handle, aliases=True)
 
     # ---- R4 / R1 ----------------------------------------------------------
     creates = []
@@ -126,10 +128,12 @@ def run(repo, rep, tier):
                     LS, start.node.lineno, 'the indication queue is not a '
                     'FIFO queue.Queue created in start()')
     # producer tuple arity = consumer unpack arity
-    puts = [n for n in walk_no_nested(handle.node) if isinstance(n, ast.Call)
-            and dotted(n.func) == 'self._ind_queue.put']
+    puts = [n for n in walk_no_nested(handle_f.node)
+            if isinstance(n, ast.Call) and
+            dotted(n.func) in ('self._ind_queue.put',
+                               'self._ind_queue.put_nowait')]
     arity_put = None
-    for n in walk_no_nested(handle.node):
+    for n in walk_no_nested(handle_f.node):
         if isinstance(n, ast.Assign) and puts and \
                 norm(n.targets[0]) == norm(puts[0].args[0]) and \
                 isinstance(n.value, ast.Tuple):
@@ -167,8 +171,8 @@ def run(repo, rep, tier):
         raise AnalysisError('_callback_run no longer reads _ind_queue')
 
     # ---- R2 ---------------------------------------------------------------
-    for f in (Flat(stop, keep=(stop_del.name, stop_thr.name)), stop_del_f,
-              stop_thr_f):
+    for f in (Flat(stop, keep=(stop_del.name, stop_thr.name), aliases=True),
+              stop_del_f, stop_thr_f):
         cfg = CFG(f.node)
         joins = [s for s in cfg.stmts() if isinstance(s, ast.Expr) and
                  isinstance(s.value, ast.Call) and
@@ -357,8 +361,14 @@ def run(repo, rep, tier):
         rep.finding(r3, post.qualname, 'except queue.Full', 'full-handling',
                     LS, post.node.lineno, 'a full queue does not lead to '
                     'exactly an error response')
-    ok = bool(puts) and all(any(k.arg == 'block' and norm(k.value) == 'False'
-                                for k in p.keywords) for p in puts)
+    def non_blocking(p_):
+        if p_.func.attr == 'put_nowait':
+            return True
+        if any(k.arg == 'block' and norm(k.value) == 'False'
+               for k in p_.keywords):
+            return True
+        return len(p_.args) >= 2 and norm(p_.args[1]) == 'False'
+    ok = bool(puts) and all(non_blocking(p_) for p_ in puts)
     r3.ob(ok, 'non-blocking-put')
     if not ok:
         rep.finding(r3, handle.qualname, 'self._ind_queue.put', 'blocking',
@@ -434,18 +444,47 @@ def run(repo, rep, tier):
                     '%s can escape from _deliver_indication_to_callbacks: '
                     'task_done() is skipped and the delivery thread ends'
                     % e.exc)
-    tries = [n for n in walk_no_nested(run_cb_f.node)
-             if isinstance(n, ast.Try)]
-    ok = False
-    for t in tries:
-        txt = [norm(s, 600) for s in t.body]
-        gi = [i for i, s in enumerate(txt) if '.get(' in s]
-        di = [i for i, s in enumerate(txt) if 'task_done()' in s]
-        ci = [i for i, s in enumerate(txt)
-              if '_deliver_indication_to_callbacks' in s]
-        if gi and di and ci and gi[0] < ci[0] < di[0] and \
-                di[0] == len(txt) - 1:
-            ok = True
+    # consumer loop: every item taken from the queue is delivered and then
+    # marked done before the next item is taken or the loop is left (on
+    # the normal-flow edges of the CFG).
+    ccfg = CFG(run_cb_f.node)
+
+    def simple(n):
+        return isinstance(n, ast.stmt) and not isinstance(
+            n, (ast.If, ast.For, ast.While, ast.Try, ast.With))
+
+    def has_call(n, pred):
+        return simple(n) and any(isinstance(c, ast.Call) and pred(c)
+                                 for c in ast.walk(n))
+    gets = [n for n in ccfg.nodes if has_call(
+        n, lambda c: dotted(c.func) == 'self._ind_queue.get')]
+    delivers = [n for n in ccfg.nodes if has_call(
+        n, lambda c: (dotted(c.func) or '').endswith(
+            '._deliver_indication_to_callbacks'))]
+    dones = [n for n in ccfg.nodes if has_call(
+        n, lambda c: dotted(c.func) == 'self._ind_queue.task_done')]
+
+    def no_exc(a, b, labs):
+        # normal flow only: what can raise between get() and task_done()
+        # is decided by the escape analysis above and by R4 (item shape)
+        return labs == {'exc'}
+    ok = len(gets) == 1 and bool(delivers) and bool(dones)
+    if ok:
+        g = gets[0]
+        for tgt in (g, ccfg.EXIT):
+            if ccfg.path_avoiding(g, tgt, lambda n: n in delivers,
+                                  no_exc) is not None:
+                ok = False      # an item can be dropped undelivered
+        for d_ in delivers:
+            for tgt in (g, ccfg.EXIT):
+                if ccfg.path_avoiding(d_, tgt, lambda n: n in dones,
+                                      no_exc) is not None:
+                    ok = False  # delivered but never marked done
+        # and task_done() is only called for an item that was delivered
+        for t_ in dones:
+            if ccfg.path_avoiding(ccfg.ENTRY, t_, lambda n: n in delivers,
+                                  None) is not None:
+                ok = False
     r5.ob(ok, 'get-deliver-task_done')
     if not ok:
         rep.finding(r5, run_cb.qualname, 'get / deliver / task_done',
